@@ -50,7 +50,8 @@ def list_task(args):
     modname, tier, prop = args
     try:
         L = _load(modname, tier)
-        return modname, [(o["name"], o["props"], o["kind"], int(o["opts"].get("shards", 1) or 1)) for o in L.obligations() if prop in o["props"]], None
+        return modname, [(o["name"], o["props"], o["kind"], int(o["opts"].get("shards", 1) or 1)) for o in L.obligations()
+                         if prop in o["props"] and (tier == "thorough" or o["opts"].get("tier") != "thorough")], None
     except Exception as e:  # noqa
         import traceback
         return modname, [], f"{type(e).__name__}: {e}\n{traceback.format_exc(limit=6)}"
